@@ -23,14 +23,16 @@
 using namespace gtry;
 namespace strm = gtry::scl::strm;
 
-enum Kind { DS, DSB, RR, DEC, STALL, DLY, FIFO, EXT, RED };
-static const char *kindName[] = { "ds", "dsb", "rr", "dec", "stall", "dly", "fifo", "ext", "red" };
+enum Kind { DS, DSB, RR, DEC, STALL, DLY, FIFO, EXT, RED, PEXT, PRED }; // PEXT/PRED = strm::widthExtend / strm::widthReduce of Packet.h
+static const char *kindName[] = { "ds", "dsb", "rr", "dec", "stall", "dly", "fifo", "ext", "red", "pext", "pred" };
+static const int NKIND = 11;
 
 struct StageSpec {
 	Kind kind;
 	unsigned a = 0, b = 0; // dly: a = cycles; fifo: a = minDepth, b = latency request (0..3, 9 = DontCare); ext/red: a = ratio
 	unsigned win = 0, wout = 0;
 	unsigned bwin = 0, bwout = 0; // byte-enable width before / after the stage (0 = stream type has no ByteEnable)
+	unsigned ewin = 0, ewout = 0; // width of the Empty / EmptyBits signal before / after the stage
 };
 
 struct CaseSpec {
@@ -39,6 +41,7 @@ struct CaseSpec {
 	unsigned w0;          // data width at the head
 	unsigned txw;         // txid / empty width
 	unsigned bw0 = 0;     // byte-enable width at the head
+	unsigned ew0 = 0;     // Empty / EmptyBits width at the head
 	std::vector<StageSpec> stages;
 	unsigned ncycles;
 	unsigned stallmode;
@@ -56,7 +59,14 @@ using S3 = scl::RvStream<UInt, scl::Sop, scl::Empty>; // explicit Sop (ambiguous
 using S4 = scl::RvStream<UInt, scl::ByteEnable>;
 using S5 = scl::RvPacketStream<UInt, scl::ByteEnable, scl::TxId>;
 
+// packet-framed flavours (sop on the first, eop on the last beat of every packet, coherent at the head)
+using S6 = scl::RvPacketStream<UInt, scl::Sop, scl::TxId>;   // utils.h reduceWidth is ambiguous for Valid+Eop+Sop (sop()), strm::fifo drops Sop
+using S7 = scl::RvPacketStream<UInt, scl::Empty, scl::Error>;
+using S8 = scl::RvPacketStream<UInt, scl::EmptyBits>;
+using S9 = scl::RvPacketStream<UInt, scl::Sop, scl::Empty, scl::ByteEnable>;
+
 template<class S> constexpr bool hasBE = S::template has<scl::ByteEnable>();
+template<class S> constexpr bool hasEmptyBits = S::template has<scl::EmptyBits>();
 template<class S> constexpr bool hasEop = S::template has<scl::Eop>();
 template<class S> constexpr bool hasSop = S::template has<scl::Sop>();
 template<class S> constexpr bool hasTx = S::template has<scl::TxId>();
@@ -65,13 +75,13 @@ template<class S> constexpr bool hasEmpty = S::template has<scl::Empty>();
 
 struct Tap {
 	OutputPin v, r, e, s;
-	OutputPins d, m, b;
-	Tap(const Bit &v_, const Bit &r_, const Bit &e_, const Bit &s_, const UInt &d_, const UInt &m_, const UInt &b_, const std::string &n)
+	OutputPins d, m, b, x;
+	Tap(const Bit &v_, const Bit &r_, const Bit &e_, const Bit &s_, const UInt &d_, const UInt &m_, const UInt &b_, const UInt &x_, const std::string &n)
 		: v(pinOut(v_).setName(n + "_v")), r(pinOut(r_).setName(n + "_r")), e(pinOut(e_).setName(n + "_e")), s(pinOut(s_).setName(n + "_s")),
-		  d(pinOut(d_).setName(n + "_d")), m(pinOut(m_).setName(n + "_m")), b(pinOut(b_).setName(n + "_b")) {}
+		  d(pinOut(d_).setName(n + "_d")), m(pinOut(m_).setName(n + "_m")), b(pinOut(b_).setName(n + "_b")), x(pinOut(x_).setName(n + "_x")) {}
 };
 
-// all meta signals other than eop/sop packed into one word: {error, txid, empty} (whatever the type has), lowest first
+// all meta signals other than eop/sop/byteEnable/empty packed into one word: {error, txid} (whatever the type has), lowest first
 template<class S> UInt metaWord(const S &s)
 {
 	UInt m = ConstUInt(0, 1_b);
@@ -79,7 +89,6 @@ template<class S> UInt metaWord(const S &s)
 	auto add = [&](const UInt &x) { if (first) { m = x; first = false; } else m = cat(x, m); };
 	if constexpr (hasErr<S>) { UInt e = 1_b; e[0] = error(s); add(e); }
 	if constexpr (hasTx<S>) add(txid(s));
-	if constexpr (hasEmpty<S>) add(empty(s));
 	return m;
 }
 
@@ -88,7 +97,6 @@ template<class S> unsigned metaWidth(unsigned txw)
 	unsigned w = 0;
 	if (hasErr<S>) w += 1;
 	if (hasTx<S>) w += txw;
-	if (hasEmpty<S>) w += txw;
 	return w ? w : 1;
 }
 
@@ -96,12 +104,15 @@ template<class S> std::unique_ptr<Tap> makeTap(const S &s, size_t i)
 {
 	Bit v = valid(s), r = ready(s), e = '0', sp = '0';
 	if constexpr (hasEop<S>) e = eop(s);
-	if constexpr (hasSop<S>) sp = sop(s);
+	if constexpr (hasSop<S>) sp = get<scl::Sop>(s).sop;
 	UInt d = *s;
 	UInt m = metaWord(s);
 	UInt b = ConstUInt(0, 1_b);
 	if constexpr (hasBE<S>) b = (UInt)byteEnable(s);
-	return std::make_unique<Tap>(v, r, e, sp, d, m, b, "tap" + std::to_string(i));
+	UInt x = ConstUInt(0, 1_b);
+	if constexpr (hasEmpty<S>) x = empty(s);
+	if constexpr (hasEmptyBits<S>) x = get<scl::EmptyBits>(s).emptyBits;
+	return std::make_unique<Tap>(v, r, e, sp, d, m, b, x, "tap" + std::to_string(i));
 }
 
 template<class S> S applyStage(S &&s, const StageSpec &sp, size_t idx, std::vector<std::optional<Bit>> &stallPins)
@@ -123,7 +134,21 @@ template<class S> S applyStage(S &&s, const StageSpec &sp, size_t idx, std::vect
 		else
 			return move(s);
 	case EXT: return strm::extendWidth(move(s), BitWidth(sp.wout));
-	case RED: return strm::reduceWidth(move(s), BitWidth(sp.wout));
+	case RED:
+		if constexpr (!(hasSop<S> && hasEop<S>))
+			return strm::reduceWidth(move(s), BitWidth(sp.wout));
+		else
+			return move(s);
+	case PEXT:
+		if constexpr (hasEop<S>)
+			return strm::widthExtend(move(s), BitWidth(sp.wout));
+		else
+			return move(s);
+	case PRED:
+		if constexpr (hasEop<S>)
+			return strm::widthReduce(move(s), BitWidth(sp.wout));
+		else
+			return move(s);
 	}
 	return move(s);
 }
@@ -154,14 +179,17 @@ template<class S> void runCase(const CaseSpec &cs)
 	Bit eIn, sIn, errIn;
 	UInt txIn, empIn;
 	BVec beIn;
+	constexpr unsigned ek = hasEmpty<S> ? 1 : (hasEmptyBits<S> ? 2 : 0);
+	const bool framed = cs.skind >= 6; // packets of 1..N beats, sop on the first and eop on the last beat
 	S in;
 	in.data = dIn;
 	valid(in) = vIn;
 	if constexpr (hasEop<S>) { eIn = pinIn().setName("in_eop"); eop(in) = eIn; }
-	if constexpr (hasSop<S>) { sIn = pinIn().setName("in_sop"); sop(in) = sIn; }
+	if constexpr (hasSop<S>) { sIn = pinIn().setName("in_sop"); get<scl::Sop>(in).sop = sIn; }
 	if constexpr (hasTx<S>) { txIn = pinIn(BitWidth(cs.txw)).setName("in_txid"); txid(in) = txIn; }
 	if constexpr (hasErr<S>) { errIn = pinIn().setName("in_error"); error(in) = errIn; }
-	if constexpr (hasEmpty<S>) { empIn = pinIn(BitWidth(cs.txw)).setName("in_empty"); empty(in) = empIn; }
+	if constexpr (hasEmpty<S>) { empIn = pinIn(BitWidth(cs.ew0)).setName("in_empty"); empty(in) = empIn; }
+	if constexpr (hasEmptyBits<S>) { empIn = pinIn(BitWidth(cs.ew0)).setName("in_emptybits"); get<scl::EmptyBits>(in).emptyBits = empIn; }
 	if constexpr (hasBE<S>) { beIn = (BVec)pinIn(BitWidth(cs.bw0)).setName("in_be"); byteEnable(in) = beIn; }
 
 	const size_t n = cs.stages.size();
@@ -190,7 +218,7 @@ template<class S> void runCase(const CaseSpec &cs)
 	auto &circ = design.getCircuit();
 	design.postprocess();
 
-	std::cout << "case " << cs.id << " kind=" << cs.skind << " w=" << cs.w0 << " mw=" << metaWidth<S>(cs.txw) << " bw=" << cs.bw0 << " ncyc=" << cs.ncycles
+	std::cout << "case " << cs.id << " kind=" << cs.skind << " w=" << cs.w0 << " mw=" << metaWidth<S>(cs.txw) << " bw=" << cs.bw0 << " ek=" << ek << " ew=" << cs.ew0 << " frame=" << (framed && hasSop<S> ? 1 : 0) << " ncyc=" << cs.ncycles
 			  << " stallmode=" << cs.stallmode << " simseed=" << cs.simSeed << "\n";
 	std::cout << "stages " << n << "\n";
 	for (size_t i = 0; i < n; i++) {
@@ -201,6 +229,8 @@ template<class S> void runCase(const CaseSpec &cs)
 		case FIFO: std::cout << " " << nextPow2(sp.a) << " " << (sp.b == 9 ? 2u : (sp.b == 0 ? 1u : sp.b)) << " " << (sp.b == 0 ? 1 : 0) << " req=" << sp.a << "/" << sp.b; break;
 		case EXT: std::cout << " " << sp.a << " " << sp.win << " " << sp.bwin; break;
 		case RED: std::cout << " " << sp.a << " " << sp.wout << " " << sp.bwout; break;
+		case PEXT: std::cout << " " << sp.a << " " << sp.win << " " << sp.bwin << " " << ek << " " << sp.ewin; break;
+		case PRED: std::cout << " " << sp.a << " " << sp.wout << " " << sp.bwout << " " << ek; break;
 		default: break;
 		}
 		std::cout << " win=" << sp.win << " wout=" << sp.wout << "\n";
@@ -211,17 +241,24 @@ template<class S> void runCase(const CaseSpec &cs)
 
 	auto mask = [](unsigned w) -> uint64_t { return w >= 64 ? ~0ull : ((1ull << w) - 1); };
 
+	const unsigned pktDen = (unsigned)rng.range(1, 6); // mean packet length 1..6 beats (1 = single-beat packets only)
 	struct BeatV { uint64_t d = 0; bool e = false, s = false; uint64_t tx = 0, err = 0, emp = 0, be = 0; };
 	auto randBeat = [&](bool &inPacket) {
 		BeatV b;
 		b.d = rng.next() & mask(cs.w0);
 		if (rng.chance(1, 16)) b.d = rng.chance(1, 2) ? 0 : mask(cs.w0);
 		b.s = !inPacket;
-		b.e = rng.chance(1, 3);
-		if (rng.chance(1, 20)) b.s = rng.chance(1, 2); // incoherent packet framing now and then: the stages must not care
+		b.e = rng.chance(1, pktDen);
+		if (!framed && rng.chance(1, 20)) b.s = rng.chance(1, 2); // incoherent packet framing now and then: the stages must not care
 		b.tx = rng.next() & mask(cs.txw);
 		b.err = rng.below(2);
-		b.emp = rng.next() & mask(cs.txw);
+		b.emp = rng.next() & mask(cs.ew0);
+		if (framed) {
+			// empty is meaningful on the last beat only: fewer empty bytes / bits than the beat holds; 0 elsewhere
+			uint64_t units = ek == 1 ? cs.w0 / 8 : cs.w0;
+			b.emp = (b.e && ek) ? rng.below(units) & mask(cs.ew0) : 0;
+			if (b.e && rng.chance(1, 3)) b.emp = 0;
+		}
 		b.be = rng.next() & mask(cs.bw0);
 		if (rng.chance(1, 8)) b.be = mask(cs.bw0);
 		inPacket = !b.e;
@@ -231,6 +268,7 @@ template<class S> void runCase(const CaseSpec &cs)
 		simu(dIn) = b.d;
 		if constexpr (hasEop<S>) simu(eIn) = b.e;
 		if constexpr (hasSop<S>) simu(sIn) = b.s;
+		if constexpr (hasEmptyBits<S>) simu(empIn) = b.emp;
 		if constexpr (hasTx<S>) simu(txIn) = b.tx;
 		if constexpr (hasErr<S>) simu(errIn) = (bool)b.err;
 		if constexpr (hasEmpty<S>) simu(empIn) = b.emp;
@@ -238,7 +276,8 @@ template<class S> void runCase(const CaseSpec &cs)
 	};
 
 	auto rdBit = [&](const OutputPin &p, bool &def) { auto h = simu(p); def = h.defined(); return def ? h.value() : false; };
-	auto hexOf = [&](const OutputPins &p) -> std::string { auto h = simu(p); if (!h.allDefined()) return "u"; return vh::hex64(h.value()); };
+	// words are logged in every cycle, undefined bits as 0 (power-on content of payload registers)
+	auto hexOf = [&](const OutputPins &p) -> std::string { auto h = simu(p); return vh::hex64(h.value() & h.defined()); };
 
 	sim.addSimulationProcess([&]() -> SimProcess {
 		bool pending = false, inPacket = false;
@@ -258,7 +297,10 @@ template<class S> void runCase(const CaseSpec &cs)
 			simu(vIn) = false;
 			{ bool dummy = false; driveBeat(randBeat(dummy)); }
 			for (size_t i = 0; i < n; i++) if (stallPins[i]) simu(*stallPins[i]) = false;
-			simu(rRaw) = false;
+			// consumer ready during this phase: the payload registers of the chain take over defined (arbitrary) values from the
+			// head pins, so that stages whose handshake looks at the payload of an invalid beat (widthExtend: eop(source)) do not
+			// start from simulator-undefined control signals
+			simu(rRaw) = true;
 			simu(rSel) = (uint64_t)0;
 			auto rst = sim.getValueOfReset(clock.getClk());
 			bool active = rst[sim::DefaultConfig::VALUE] == (clock.getClk()->getRegAttribs().resetActive == hlim::RegisterAttributes::Active::HIGH);
@@ -268,6 +310,7 @@ template<class S> void runCase(const CaseSpec &cs)
 		}
 		for (unsigned t = 0; t < maxCycles; t++) {
 			const bool drain = t >= cs.ncycles;
+			const bool flush = t < 4 * n + 2; // logged like every other cycle: nothing offered, consumer ready (see above)
 			auto decide = [&](Pat &p, unsigned &left, bool sink) -> bool {
 				if (left-- == 0) { p = newPat(rng, sink); left = p.len; }
 				switch (p.kind) {
@@ -280,21 +323,21 @@ template<class S> void runCase(const CaseSpec &cs)
 				}
 			};
 			// producer: law-abiding; offers a new beat according to the source pattern
-			if (!pending && !drain && decide(src, srcLeft, false)) { beat = randBeat(inPacket); pending = true; }
+			if (!pending && !drain && !flush && decide(src, srcLeft, false)) { beat = randBeat(inPacket); pending = true; }
 			simu(vIn) = pending;
 			if (pending) driveBeat(beat);
 			else { bool dummy = false; driveBeat(randBeat(dummy)); } // garbage while not valid
 			// stall conditions
 			for (size_t i = 0; i < n; i++) if (stallPins[i]) {
-				bool c = drain ? false : !decide(stl[i], stlLeft[i], false);
+				bool c = (drain || flush) ? false : !decide(stl[i], stlLeft[i], false);
 				if (!(cs.stallmode & 1) && stallMustStayLow[i]) c = false;
 				stallNow[i] = c;
 				simu(*stallPins[i]) = c;
 			}
 			// consumer
-			bool rraw = drain ? true : decide(snk, snkLeft, true);
+			bool rraw = (drain || flush) ? true : decide(snk, snkLeft, true);
 			unsigned rsel = 0;
-			if (!drain && snk.kind >= 5) {
+			if (!drain && !flush && snk.kind >= 5) {
 				switch (snk.kind) {
 				case 5: rsel = 1; rraw = rng.chance(snk.num, snk.den); break;       // ready only once valid is seen
 				case 6: rsel = 2; rraw = rng.chance(1, 8); break;                   // ready drops the moment valid rises
@@ -317,8 +360,8 @@ template<class S> void runCase(const CaseSpec &cs)
 				bool v = rdBit(taps[i]->v, dv), r = rdBit(taps[i]->r, dr), e = rdBit(taps[i]->e, de), s = rdBit(taps[i]->s, ds);
 				bv[i] = v; br[i] = r;
 				line << ' ' << (dv ? (v ? '1' : '0') : 'u') << (dr ? (r ? '1' : '0') : 'u') << ',';
-				if (v && dv) line << hexOf(taps[i]->d) << ',' << (de ? (e ? '1' : '0') : 'u') << (ds ? (s ? '1' : '0') : 'u') << ',' << hexOf(taps[i]->m) << ',' << (hasBE<S> ? hexOf(taps[i]->b) : std::string("0"));
-				else line << "-,--,-,-";
+				line << hexOf(taps[i]->d) << ',' << (de ? (e ? '1' : '0') : 'u') << (ds ? (s ? '1' : '0') : 'u') << ',' << hexOf(taps[i]->m) << ','
+					 << (hasBE<S> ? hexOf(taps[i]->b) : std::string("0")) << ',' << (ek ? hexOf(taps[i]->x) : std::string("0"));
 				any = any || v || !dv;
 				anyTransfer = anyTransfer || (v && r);
 				if (i == 0) b0r = r;
@@ -350,8 +393,8 @@ static bool blockingFeedsWeak(const std::vector<StageSpec> &st)
 		if (st[i].kind != DSB) continue;
 		for (size_t j = i + 1; j < st.size(); j++) {
 			Kind k = st[j].kind;
-			if (k == RED && st[j].a > 1) return true;
-			bool passes = k == STALL || k == EXT || k == RED || (k == DLY && st[j].a == 0) || k == DSB;
+			if ((k == RED || k == PRED) && st[j].a > 1) return true;
+			bool passes = k == STALL || k == EXT || k == RED || k == PEXT || k == PRED || (k == DLY && st[j].a == 0) || k == DSB;
 			if (!passes) break;
 		}
 	}
@@ -364,69 +407,118 @@ static bool reduceThenDelay(const std::vector<StageSpec> &st)
 	return false;
 }
 
+// static facts about the stream types S0..S9
+static bool kHasBE(unsigned k) { return k == 4 || k == 5 || k == 9; }
+static bool kHasEop(unsigned k) { return k == 1 || k == 2 || k >= 5; }
+static bool kHasSop(unsigned k) { return k == 3 || k == 6 || k == 9; }
+static unsigned kEmpty(unsigned k) { return (k == 3 || k == 7 || k == 9) ? 1 : (k == 8 ? 2 : 0); } // 1 = Empty (bytes), 2 = EmptyBits
+static bool kFramed(unsigned k) { return k >= 6; }
+
+static unsigned log2c(uint64_t v) { unsigned r = 0; while ((1ull << r) < v) r++; return r; }   // utils::Log2C
+static unsigned bitLen(uint64_t v) { return log2c(v + 1); }                                     // BitWidth::last
+static unsigned bitCount(uint64_t n) { return n <= 1 ? 0 : log2c(n); }                          // BitWidth::count
+
+// fills in the widths along the chain; false if some stage cannot be built / is outside what the check covers
+static bool finishWidths(CaseSpec &cs)
+{
+	const unsigned k = cs.skind, ek = kEmpty(k);
+	unsigned w = cs.w0, bw = cs.bw0, ew = cs.ew0;
+	for (auto &sp : cs.stages) {
+		sp.win = sp.wout = w; sp.bwin = sp.bwout = bw; sp.ewin = sp.ewout = ew;
+		switch (sp.kind) {
+		case FIFO: if (kHasSop(k)) return false; break;            // strm::fifo drops Sop (removeFlowControl) and does not compile for it
+		case EXT:
+			if (kFramed(k)) return false;                           // utils.h extendWidth/reduceWidth are the non-packet versions
+			if (sp.a == 0 || w * sp.a > 60 || bw * sp.a > 60) return false;
+			sp.wout = w * sp.a; sp.bwout = bw * sp.a; break;
+		case RED:
+			if (kFramed(k) || (kHasSop(k) && kHasEop(k))) return false;
+			// byte-enable groups of the narrow side at most 8 bits: reduceWidth slices the enables with a dynamic offset of
+			// (counter width + group width) bits (utils.h:601), whose elaboration cost is exponential in that width
+			if (sp.a == 0 || w % sp.a || bw % sp.a || bw / sp.a > 8) return false;
+			sp.wout = w / sp.a; sp.bwout = bw / sp.a; break;
+		case PEXT: {
+			if (!kHasEop(k) || sp.a == 0 || w * sp.a > 60 || bw * sp.a > 60) return false;
+			if (ek == 1 && w % 8) return false;
+			sp.wout = w * sp.a; sp.bwout = bw * sp.a;
+			if (ek) { uint64_t unit = ek == 1 ? w / 8 : w; sp.ewout = bitLen(unit * (sp.a - 1) + ((1ull << ew) - 1)); if (sp.ewout > 20) return false; }
+			break; }
+		case PRED: {
+			if (!kHasEop(k) || sp.a == 0 || w % sp.a || bw % sp.a) return false;
+			sp.wout = w / sp.a; sp.bwout = bw / sp.a;
+			if (ek == 1 && (w % 8 || sp.wout % 8)) return false;
+			if (ek) { uint64_t unit = ek == 1 ? sp.wout / 8 : sp.wout; sp.ewout = bitCount(unit); if (sp.ewout == 0) return false;
+				// the producer's empty must fit the input beat: guaranteed at the head, kept by the stages
+			}
+			break; }
+		default: break;
+		}
+		w = sp.wout; bw = sp.bwout; ew = sp.ewout;
+	}
+	return true;
+}
+
 static CaseSpec genCase1(vh::Rng &rng, uint64_t id, unsigned ncycles, unsigned stallmode)
 {
-	CaseSpec cs;
-	cs.id = id;
-	cs.skind = (unsigned)rng.below(6);
-	cs.txw = (unsigned)rng.range(1, 4);
-	cs.ncycles = ncycles;
-	cs.stallmode = stallmode;
-	const bool be = cs.skind >= 4;
-	if (!be) {
-		static const unsigned ws[] = { 1, 2, 3, 4, 5, 6, 7, 8, 9, 12, 16, 24 };
-		cs.w0 = ws[rng.below(sizeof ws / sizeof ws[0])];
-	} else {
-		// ByteEnable streams: `units` enable groups of `g` payload bits and `h` enable bits each
-		// (g = 8, h = 1: one enable per byte; g = 16/32: one enable per 2/4 bytes; h = 2: finer than a byte)
-		static const unsigned us[] = { 1, 2, 3, 4, 6, 8, 12, 16, 24 }, gs[] = { 1, 2, 4, 8, 16, 32 };
-		for (;;) {
-			unsigned u = us[rng.below(9)], g = gs[rng.below(6)], h = rng.chance(1, 4) ? 2 : 1;
-			if (u * g > 60 || u * h > 60) continue;
-			cs.w0 = u * g; cs.bw0 = u * h;
-			break;
+	for (;;) {
+		CaseSpec cs;
+		cs.id = id;
+		cs.skind = (unsigned)rng.below(10);
+		cs.txw = (unsigned)rng.range(1, 4);
+		cs.ncycles = ncycles;
+		cs.stallmode = stallmode;
+		const unsigned k = cs.skind, ek = kEmpty(k);
+		if (k == 9) {
+			unsigned u = (unsigned)rng.range(1, 6); cs.w0 = 8 * u; cs.bw0 = u;       // one enable per byte
+		} else if (kHasBE(k)) {
+			// ByteEnable streams: `units` enable groups of `g` payload bits and `h` enable bits each
+			static const unsigned us[] = { 1, 2, 3, 4, 6, 8, 12, 16, 24 }, gs[] = { 1, 2, 4, 8, 16, 32 };
+			for (;;) {
+				unsigned u = us[rng.below(9)], g = gs[rng.below(6)], h = rng.chance(1, 4) ? 2 : 1;
+				if (u * g > 60 || u * h > 60) continue;
+				cs.w0 = u * g; cs.bw0 = u * h;
+				break;
+			}
+		} else if (k == 7) {
+			cs.w0 = 8 * (unsigned)rng.range(1, 6);
+		} else {
+			static const unsigned ws[] = { 1, 2, 3, 4, 5, 6, 7, 8, 9, 12, 16, 24 };
+			cs.w0 = ws[rng.below(sizeof ws / sizeof ws[0])];
 		}
-	}
-	unsigned n = (unsigned)rng.range(1, 6);
-	unsigned w = cs.w0, bw = cs.bw0;
-	for (unsigned i = 0; i < n; i++) {
-		StageSpec sp;
-		for (;;) {
-			sp = StageSpec{};
-			sp.kind = (Kind)rng.below(9);
-			if (be && rng.chance(1, 3)) sp.kind = rng.chance(1, 2) ? EXT : RED; // the byte-enable paths of the width changers
-			sp.win = w; sp.wout = w; sp.bwin = bw; sp.bwout = bw;
-			if (sp.kind == FIFO && cs.skind == 3) continue; // strm::fifo drops Sop (removeFlowControl) and does not compile for it
+		if (k == 3) cs.ew0 = cs.txw;
+		else if (ek == 1) cs.ew0 = std::max(1u, log2c(cs.w0 / 8));
+		else if (ek == 2) cs.ew0 = std::max(1u, log2c(cs.w0));
+		unsigned n = (unsigned)rng.range(1, 6);
+		unsigned w = cs.w0;
+		for (unsigned i = 0; i < n; i++) {
+			StageSpec sp;
+			sp.kind = (Kind)rng.below(NKIND);
+			if (kHasBE(k) && !kFramed(k) && rng.chance(1, 3)) sp.kind = rng.chance(1, 2) ? EXT : RED; // byte-enable paths of the width changers
+			if (kFramed(k) && rng.chance(1, 3)) sp.kind = rng.chance(1, 2) ? PEXT : PRED;               // the packet width changers
 			if (sp.kind == DLY) sp.a = (unsigned)rng.below(4);
 			if (sp.kind == FIFO) {
 				sp.a = (unsigned)rng.range(2, 9);
 				static const unsigned lats[] = { 0, 1, 2, 3, 9 };
 				sp.b = lats[rng.below(5)];
 			}
-			if (sp.kind == EXT) {
+			if (sp.kind == EXT || sp.kind == PEXT) {
 				static const unsigned rs[] = { 1, 2, 2, 3, 3, 4, 4, 8 };
 				sp.a = rs[rng.below(8)];
-				if (w * sp.a > 60 || bw * sp.a > 60) continue;
-				sp.wout = w * sp.a; sp.bwout = bw * sp.a;
+				w *= sp.a;
 			}
-			if (sp.kind == RED) {
+			if (sp.kind == RED || sp.kind == PRED) {
 				std::vector<unsigned> divs;
-				// byte-enable groups of the narrow side at most 8 bits: reduceWidth slices the enables with a dynamic offset of
-				// (counter width + group width) bits (utils.h:601, `zext(counter.value(), +w)`), whose elaboration cost is exponential
-				// in that width (a 32-bit group exhausts memory)
-				for (unsigned r : { 1u, 2u, 3u, 4u, 6u, 8u }) if (w % r == 0 && bw % r == 0 && bw / r <= 8) divs.push_back(r);
-				if (divs.empty()) continue;
+				for (unsigned r : { 1u, 2u, 3u, 4u, 6u, 8u }) if (w % r == 0) divs.push_back(r);
 				sp.a = rng.pick(divs);
 				if (sp.a == 1 && rng.chance(3, 4) && divs.size() > 1) sp.a = divs[1 + rng.below(divs.size() - 1)];
-				sp.wout = w / sp.a; sp.bwout = bw / sp.a;
+				w /= sp.a;
 			}
-			break;
+			cs.stages.push_back(sp);
 		}
-		w = sp.wout; bw = sp.bwout;
-		cs.stages.push_back(sp);
+		if (!finishWidths(cs)) continue;
+		cs.simSeed = rng.next();
+		return cs;
 	}
-	cs.simSeed = rng.next();
-	return cs;
 }
 
 static CaseSpec genCase(vh::Rng &rng, uint64_t id, unsigned ncycles, unsigned mode)
@@ -465,9 +557,9 @@ int main(int argc, char **argv)
 			std::string wspec;
 			is >> cs.skind >> wspec >> st;
 			cs.w0 = (unsigned)std::stoul(wspec);
-			cs.bw0 = wspec.find('/') != std::string::npos ? (unsigned)std::stoul(wspec.substr(wspec.find('/') + 1)) : (cs.skind >= 4 ? cs.w0 / 8 : 0);
+			cs.bw0 = wspec.find('/') != std::string::npos ? (unsigned)std::stoul(wspec.substr(wspec.find('/') + 1)) : (kHasBE(cs.skind) ? cs.w0 / 8 : 0);
+			cs.ew0 = cs.skind == 3 ? cs.txw : (kEmpty(cs.skind) == 1 ? std::max(1u, log2c(cs.w0 / 8)) : (kEmpty(cs.skind) == 2 ? std::max(1u, log2c(cs.w0)) : 0));
 			cs.stages.clear();
-			unsigned w = cs.w0, bw = cs.bw0;
 			std::istringstream ss(st);
 			for (std::string tok; std::getline(ss, tok, ',');) {
 				StageSpec sp;
@@ -475,17 +567,14 @@ int main(int argc, char **argv)
 				std::istringstream ts(tok);
 				for (std::string x; std::getline(ts, x, ':');) f.push_back(x);
 				int k = -1;
-				for (int j = 0; j < 9; j++) if (f[0] == kindName[j]) k = j;
+				for (int j = 0; j < NKIND; j++) if (f[0] == kindName[j]) k = j;
 				if (k < 0) { std::cerr << "c16: unknown stage " << f[0] << "\n"; return 2; }
 				sp.kind = (Kind)k;
 				if (f.size() > 1) sp.a = (unsigned)std::stoul(f[1]);
 				if (f.size() > 2) sp.b = (unsigned)std::stoul(f[2]);
-				sp.win = w; sp.wout = w; sp.bwin = bw; sp.bwout = bw;
-				if (sp.kind == EXT) { sp.wout = w * sp.a; sp.bwout = bw * sp.a; }
-				if (sp.kind == RED) { sp.wout = w / sp.a; sp.bwout = bw / sp.a; }
-				w = sp.wout; bw = sp.bwout;
 				cs.stages.push_back(sp);
 			}
+			if (!finishWidths(cs)) { std::cerr << "c16: this chain cannot be built for stream kind " << cs.skind << "\n"; return 2; }
 		}
 		try {
 			switch (cs.skind) {
@@ -494,7 +583,11 @@ int main(int argc, char **argv)
 			case 2: runCase<S2>(cs); break;
 			case 3: runCase<S3>(cs); break;
 			case 4: runCase<S4>(cs); break;
-			default: runCase<S5>(cs); break;
+			case 5: runCase<S5>(cs); break;
+			case 6: runCase<S6>(cs); break;
+			case 7: runCase<S7>(cs); break;
+			case 8: runCase<S8>(cs); break;
+			default: runCase<S9>(cs); break;
 			}
 		} catch (const std::exception &e) {
 			std::cout << "case " << id << " exception\n" << "err " << e.what() << "\nend\n";
